@@ -59,7 +59,7 @@ HTML_BLOCKS = [
 ]
 MARKER_LIKE = ['> q', '# h', '- l', '+ p', '1. x', '2) y', '***', '---', '[a]: b', '===', '>']
 EXACT_LABELS = ['a\\]b', 'x\\\ny', 'p\\[q\\]', 'two\nlines', 'back\\\\slash', 'foo\\] bar\nbaz', 'm\\[n\no\\]']
-LABELS = ['foo', 'bar', 'Baz', 'long label', 'x1', 'ẞtraße', 'Σίσυφος', 'mixed Case Label', 'q']
+LABELS = ['foo', 'bar', 'Baz', 'long label', 'x1', 'ẞtraße', 'Σίσυφος', 'mixed Case Label', 'q', 'long\u00a0label', 'x1\u2003']      # a label with a no-break space is another label than the one with a space
 
 
 class N:
